@@ -928,6 +928,14 @@ def make_cat(ip, args):
                 p = E('sig', p.args, w=ow)
         flat.append(p)
     ws = [p.w for p in flat]
+    if len(flat) == 1 and flat[0].w is not None:
+        return flat[0]
+    if flat and all(p.op == 'const' and p.w is not None and isinstance(p.val, int) for p in flat):
+        v, off = 0, 0
+        for p in flat:
+            v |= (p.val & ((1 << p.w) - 1)) << off
+            off += p.w
+        return E('const', val=v, w=off)
     return E('cat', flat, w=sum(ws) if all(x is not None for x in ws) else None)
 
 
